@@ -136,15 +136,18 @@ def finish(ctx: Ctx, level_explanation: str, rule_text: str, error: Optional[str
         else:
             violations.append(o)
     code = 0
+    no_files = bool(os.environ.get("VT_NO_EVIDENCE"))
     if violations:
-        out_dir.mkdir(parents=True, exist_ok=True)
+        if not no_files:
+            out_dir.mkdir(parents=True, exist_ok=True)
         for n, o in enumerate(violations):
             path = out_dir / f"{o.rule}-{n}.json"
-            path.write_text(json.dumps({
-                "property": ctx.prop, "rule": o.rule, "construct": o.construct, "witness": o.witness,
-                "loc": o.loc, "detail": o.detail, "suggested_input": o.suggested_input,
-                "repo": str(ctx.repo.root),
-            }, indent=1))
+            if not no_files:
+                path.write_text(json.dumps({
+                    "property": ctx.prop, "rule": o.rule, "construct": o.construct, "witness": o.witness,
+                    "loc": o.loc, "detail": o.detail, "suggested_input": o.suggested_input,
+                    "repo": str(ctx.repo.root),
+                }, indent=1))
             print(f"  refuted: {o.rule} {o.construct} at {o.loc}\n    witness: {o.witness}\n    {o.detail}")
             print(f"VIOLATION property={ctx.prop} replay={path}")
         code = 1
@@ -197,9 +200,10 @@ def finish(ctx: Ctx, level_explanation: str, rule_text: str, error: Optional[str
         "wall_s": round(time.time() - ctx.t0, 3),
         "violations": len(violations),
     }
-    evdir = VERIF / "evidence"
-    evdir.mkdir(exist_ok=True)
-    (evdir / f"{ctx.prop}.json").write_text(json.dumps(ev, indent=1, sort_keys=False) + "\n")
+    if not no_files:
+        evdir = VERIF / "evidence"
+        evdir.mkdir(exist_ok=True)
+        (evdir / f"{ctx.prop}.json").write_text(json.dumps(ev, indent=1, sort_keys=False) + "\n")
     print(f"{ctx.prop} [{ctx.tier}] obligations={len(ctx.obs)} proved={len(proved)} refuted={len(refuted)} "
           f"(known={len(known_matched)}) inconclusive={len(incon)} evaluations={ev['coverage']['evaluations']} "
           f"functions={len(ctx.functions)} wall={ev['wall_s']}s exit={code}")
